@@ -1,12 +1,361 @@
-//! C35 — not built yet.
-use crate::runner::{Outcome, Summary};
-use crate::Ctx;
-use serde_json::Value;
+//! C35 — dead-code removal keeps execution and removes exactly unused definitions (spec/Simplify.tla).
+//!
+//! replay: TLC cases {frames, wfs, exts, cals, body, out, scheds} from spec/mc/MC_Simplify.tla are realised as
+//!         real programs; `Program::simplify(&DefaultHandler)` is compared with the model's result and, block by
+//!         block, the schedules of the simplified and of the calibration-expanded program are compared.
+//!         A mismatch with the model is a VIOLATION only if the property itself, evaluated here on the real
+//!         results (`property_failures`), is false.
+//! drive:  seeded random programs (random frame / waveform / extern tables, nested random calibrations, bodies
+//!         with labels, calls, plain gates); events reset / out / sched / check for spec/trace/SimplifyTrace.tla.
 
-pub fn replay(_ctx: &Ctx, _case: &Value) -> Outcome {
-    panic!("C35: replay not implemented")
+use super::c25::{self, abs_instr, as_int, frame_abs, observe_block, quilt_summ, BlockObs};
+use crate::runner::{Outcome, Summary, Violation};
+use crate::util::{self, arr, s};
+use crate::Ctx;
+use quil_rs::instruction::{AttributeValue, DefaultHandler, Instruction, PragmaArgument};
+use quil_rs::program::analysis::ControlFlowGraph;
+use quil_rs::quil::Quil;
+use quil_rs::Program;
+use rand::seq::SliceRandom;
+use rand::Rng;
+use serde_json::{json, Value};
+use std::collections::BTreeSet;
+
+pub const HEADER: &str = "DECLARE i INTEGER[2]\nDEFGATE FOO:\n\t1, 0\n\t0, 1\nDEFCIRCUIT BELL:\n\tH 0\n\tCNOT 0 1\n";
+
+fn extern_text(name: &str) -> String {
+    format!("PRAGMA EXTERN {name} \"(x : mut INTEGER)\"\n")
 }
 
-pub fn drive(_ctx: &Ctx) -> Summary {
-    panic!("C35: drive not implemented")
+pub fn build(frames: &[Value], wfs: &[Value], exts: &[Value], cals: &[Value], body: &[String]) -> Program {
+    let mut header = String::from(HEADER);
+    for e in exts {
+        header.push_str(&extern_text(e.as_str().unwrap()));
+    }
+    c25::build_program(frames, wfs, cals, &header, body)
+}
+
+fn extern_names(p: &Program) -> Vec<String> {
+    p.extern_pragma_map
+        .to_instructions()
+        .iter()
+        .map(|i| match i {
+            Instruction::Pragma(pr) => match pr.arguments.first() {
+                Some(PragmaArgument::Identifier(n)) => n.clone(),
+                _ => "<unnamed>".to_string(),
+            },
+            other => other.to_quil_or_debug(),
+        })
+        .collect()
+}
+
+fn frame_table(p: &Program) -> Vec<Value> {
+    p.frames
+        .iter()
+        .map(|(id, attrs)| {
+            let mut f = frame_abs(id);
+            let rate = match attrs.get("SAMPLE-RATE") {
+                Some(AttributeValue::Expression(e)) => e.to_real().ok().and_then(as_int).unwrap_or(0),
+                _ => 0,
+            };
+            f["rate"] = json!(rate);
+            f
+        })
+        .collect()
+}
+
+fn wf_table(p: &Program) -> Vec<Value> {
+    p.waveforms.iter().map(|(n, w)| json!({"name": n, "len": w.matrix.len()})).collect()
+}
+
+fn body_texts(p: &Program) -> Vec<String> {
+    p.body_instructions().map(|i| i.to_quil_or_debug()).collect()
+}
+
+/// block schedule as comparable JSON: {"some": {"items": [{index,start,dur}] sorted, "total"}} | {"none": true}
+fn sched_value(r: &Result<(Vec<(usize, f64, f64)>, f64), String>) -> Value {
+    match r {
+        Ok((items, total)) => {
+            let mut v: Vec<(usize, f64, f64)> = items.clone();
+            v.sort_by(|a, b| a.partial_cmp(b).unwrap());
+            let num = |x: f64| as_int(x).map(|n| json!(n)).unwrap_or(json!(format!("{x}")));
+            json!({"some": {"items": v.iter().map(|(i, a, d)| json!({"index": i + 1, "start": num(*a), "dur": num(*d)})).collect::<Vec<_>>(),
+                            "total": num(*total)}})
+        }
+        Err(_) => json!({"none": true}),
+    }
+}
+
+pub struct Obs {
+    pub simplified: Program,
+    pub expanded: Program,
+    /// per block: observation of the expanded program and of the simplified program
+    pub blocks: Vec<(Option<BlockObs>, Option<BlockObs>)>,
+}
+
+pub fn observe(program: &Program) -> Result<Obs, String> {
+    let expanded = program.expand_calibrations().map_err(|e| format!("expand_calibrations: {e}"))?;
+    let simplified = program.simplify(&DefaultHandler).map_err(|e| format!("simplify: {e}"))?;
+    let ft_e = frame_table(&expanded);
+    let ft_s = frame_table(&simplified);
+    let n = ControlFlowGraph::from(&expanded).into_blocks().len().max(ControlFlowGraph::from(&simplified).into_blocks().len());
+    let blocks = (0..n).map(|k| (observe_block(&expanded, &ft_e, k), observe_block(&simplified, &ft_s, k))).collect();
+    Ok(Obs { simplified, expanded, blocks })
+}
+
+/// The property C35 evaluated directly on the real results.
+pub fn property_failures(program: &Program, obs: &Obs) -> Vec<(String, String)> {
+    let mut fails = vec![];
+    let q = &obs.simplified;
+    let e = &obs.expanded;
+    if body_texts(q) != body_texts(e) {
+        fails.push(("body".into(), format!("body {:?} is not the calibration-expanded body {:?}", body_texts(q), body_texts(e))));
+    }
+    if !q.calibrations.is_empty() {
+        fails.push(("calibrations".into(), format!("{} calibrations left", q.calibrations.len())));
+    }
+    // frames used by the expanded body, by the Quil-T rules of the specification (not by the handler under test)
+    let ft = frame_table(program);
+    let wfs = wf_table(program);
+    let mut used: BTreeSet<u64> = BTreeSet::new();
+    let mut invoked: BTreeSet<String> = BTreeSet::new();
+    let mut called: BTreeSet<String> = BTreeSet::new();
+    for i in e.body_instructions() {
+        let a = abs_instr(i);
+        used.extend(quilt_summ(&a, &ft, &wfs).used);
+        if let Some(w) = a.get("wf") {
+            invoked.insert(s(w, "name"));
+        }
+        if let Instruction::Call(c) = i {
+            called.insert(c.name.clone());
+        }
+    }
+    let want_frames: BTreeSet<String> = used.iter().map(|n| { let f = &ft[*n as usize - 1]; json!([f["name"], f["qubits"]]).to_string() }).collect();
+    let got_frames: Vec<String> = q.frames.iter().map(|(id, _)| { let f = frame_abs(id); json!([f["name"], f["qubits"]]).to_string() }).collect();
+    if got_frames.iter().cloned().collect::<BTreeSet<_>>() != want_frames || got_frames.len() != want_frames.len() {
+        fails.push(("frames".into(), format!("frames kept {got_frames:?}, frames used by the expanded body {want_frames:?}")));
+    }
+    for (id, attrs) in q.frames.iter() {
+        if program.frames.get(id) != Some(attrs) {
+            fails.push(("frames".into(), format!("frame {} changed its attributes", frame_abs(id))));
+        }
+    }
+    let want_wfs: BTreeSet<String> = program.waveforms.keys().filter(|k| invoked.contains(*k)).cloned().collect();
+    let got_wfs: BTreeSet<String> = q.waveforms.keys().cloned().collect();
+    if got_wfs != want_wfs || q.waveforms.iter().any(|(k, v)| program.waveforms.get(k) != Some(v)) {
+        fails.push(("waveforms".into(), format!("waveforms kept {got_wfs:?}, invoked by the expanded body {want_wfs:?}")));
+    }
+    let want_ext: BTreeSet<String> = extern_names(program).into_iter().filter(|n| called.contains(n)).collect();
+    let got_ext: Vec<String> = extern_names(q);
+    if got_ext.iter().cloned().collect::<BTreeSet<_>>() != want_ext || got_ext.len() != want_ext.len() {
+        fails.push(("externs".into(), format!("extern pragmas kept {got_ext:?}, called by the expanded body {want_ext:?}")));
+    }
+    if q.memory_regions != program.memory_regions {
+        fails.push(("declarations".into(), "memory regions changed".into()));
+    }
+    if q.gate_definitions != program.gate_definitions {
+        fails.push(("gate_definitions".into(), "gate definitions changed".into()));
+    }
+    if q.circuits != program.circuits {
+        fails.push(("circuits".into(), "circuits changed".into()));
+    }
+    for (k, (a, b)) in obs.blocks.iter().enumerate() {
+        match (a, b) {
+            (Some(a), Some(b)) => {
+                for (what, x, y) in [("ScheduledBasicBlock", &a.flat_sched, &b.flat_sched), ("BasicBlock", &a.src_sched, &b.src_sched)] {
+                    if sched_value(x) != sched_value(y) {
+                        fails.push(("schedules".into(), format!("block {k} ({what}::as_schedule_seconds): expanded program {}, simplified program {}",
+                            sched_value(x), sched_value(y))));
+                    }
+                }
+            }
+            (None, None) => {}
+            _ => fails.push(("schedules".into(), format!("block {k} exists in only one of the two programs"))),
+        }
+    }
+    fails
+}
+
+fn nontrivial(program: &Program, obs: &Obs) -> bool {
+    let q = &obs.simplified;
+    q.frames.len() < program.frames.len()
+        || q.waveforms.len() < program.waveforms.len()
+        || extern_names(q).len() < extern_names(program).len()
+        || body_texts(&obs.expanded) != body_texts(program)
+}
+
+fn strs(v: &Value, k: &str) -> Vec<String> {
+    arr(v, k).iter().map(|x| x.as_str().unwrap().to_string()).collect()
+}
+
+pub fn replay(_ctx: &Ctx, case: &Value) -> Outcome {
+    if let Some(h) = case.get("history") {
+        let p = &h[0]["prog"];
+        let program = program_of_abs(p);
+        return judge(&program, None);
+    }
+    let body = strs(case, "body");
+    let program = build(arr(case, "frames"), arr(case, "wfs"), arr(case, "exts"), arr(case, "cals"), &body);
+    judge(&program, Some(case))
+}
+
+fn judge(program: &Program, case: Option<&Value>) -> Outcome {
+    let obs = match observe(program) {
+        Ok(o) => o,
+        Err(e) => {
+            // the generators exclude recursive calibrations, so the expansion cannot fail
+            let mut o = Outcome::ok(true);
+            if e.starts_with("simplify") {
+                o.violate(Violation::new("simplify_result", json!("Ok"), json!(e)));
+            } else {
+                o.diverge(format!("expand_calibrations failed: {e}"));
+            }
+            return o;
+        }
+    };
+    let mut o = Outcome::ok(nontrivial(program, &obs));
+    let fails = property_failures(program, &obs);
+    let got = json!({
+        "frames": obs.simplified.frames.iter().map(|(id, _)| frame_abs(id)).collect::<Vec<_>>(),
+        "wfs": obs.simplified.waveforms.keys().collect::<Vec<_>>(),
+        "exts": extern_names(&obs.simplified),
+        "body": body_texts(&obs.simplified),
+        "ncals": obs.simplified.calibrations.len(),
+        "scheds": obs.blocks.iter().map(|(_, b)| b.as_ref().map(|b| sched_value(&b.flat_sched)).unwrap_or(Value::Null)).collect::<Vec<_>>(),
+    });
+    if !fails.is_empty() {
+        let note = fails.iter().map(|f| f.1.clone()).collect::<Vec<_>>().join("; ");
+        o.violate(Violation::new(&fails[0].0, case.map(|c| json!({"out": c["out"], "scheds": c["scheds"]})).unwrap_or(Value::Null), got).note(note));
+        return o;
+    }
+    if let Some(case) = case {
+        // compare with the model (informational beyond the property)
+        let w = &case["out"];
+        let canon = |v: &Vec<String>| v.iter().map(|t| util::instr(t).to_quil_or_debug()).collect::<Vec<_>>();
+        let mut diffs = vec![];
+        if got["frames"] != w["frames"] {
+            diffs.push("frames (order or content)");
+        }
+        if got["wfs"] != w["wfs"] {
+            diffs.push("waveforms");
+        }
+        if got["exts"] != w["exts"] {
+            diffs.push("externs");
+        }
+        if body_texts(&obs.simplified) != canon(&strs(w, "body")) {
+            diffs.push("body");
+        }
+        let mut ws = case["scheds"].clone();
+        // the model's item sets arrive in TLC's set order: sort like sched_value does
+        if let Some(a) = ws.as_array_mut() {
+            for x in a {
+                if let Some(items) = x.get_mut("some").and_then(|y| y.get_mut("items")).and_then(|y| y.as_array_mut()) {
+                    items.sort_by_key(|it| it["index"].as_u64());
+                }
+            }
+        }
+        if got["scheds"] != ws {
+            diffs.push("block schedules");
+        }
+        if !diffs.is_empty() {
+            o.diverge(format!("result satisfies the property but differs from the model in {diffs:?}: {got} vs {}", json!({"out": w, "scheds": ws})));
+        }
+    }
+    o
+}
+
+// ------------------------------------------------------------------------------------------- drive
+
+fn program_abs(p: &Program) -> Value {
+    let mut cals = vec![];
+    for c in p.calibrations.iter_calibrations() {
+        let mut head = c.identifier.name.clone();
+        for q in &c.identifier.qubits {
+            head.push(' ');
+            head.push_str(&q.to_quil_or_debug());
+        }
+        cals.push(json!({"head": head, "body": c.instructions.iter().map(abs_instr).collect::<Vec<_>>()}));
+    }
+    json!({
+        "ft": frame_table(p), "wfs": wf_table(p), "exts": extern_names(p), "cals": cals,
+        "other": {"decls": p.memory_regions.keys().collect::<Vec<_>>(), "gates": p.gate_definitions.keys().collect::<Vec<_>>(),
+                  "circuits": p.circuits.keys().collect::<Vec<_>>()},
+        "body": p.body_instructions().map(abs_instr).collect::<Vec<_>>(),
+    })
+}
+
+/// rebuild a real program from a recorded abstract program (replay of a rejected history)
+fn program_of_abs(p: &Value) -> Program {
+    let texts = |v: &Value| v.as_array().unwrap().iter().map(|i| s(i, "text")).collect::<Vec<String>>();
+    let cals: Vec<Value> = arr(p, "cals").iter().map(|c| json!({"head": c["head"], "body": texts(&c["body"])})).collect();
+    build(arr(p, "ft"), arr(p, "wfs"), arr(p, "exts"), &cals, &texts(&p["body"]))
+}
+
+pub fn drive(ctx: &Ctx) -> Summary {
+    let n = ctx.arg_u64("n", 100);
+    let max_len = ctx.arg_u64("len", 10) as usize;
+    let path = ctx.arg_str("out").expect("--out");
+    let mut out = std::io::BufWriter::new(std::fs::File::create(path).expect("create trace"));
+    let mut rng = util::rng(ctx.seed, 35);
+    let tables = c25::frame_tables();
+    let mut sum = Summary::default();
+    for h in 0..n {
+        let full = &tables[(h % tables.len() as u64) as usize];
+        let frames: Vec<Value> = full.iter().filter(|_| rng.gen_bool(0.8)).cloned().collect();
+        let wfs: Vec<Value> = [("w1", 4), ("w2", 8), ("w3", 4)].iter().filter(|_| rng.gen_bool(0.6)).map(|(n, l)| json!({"name": n, "len": l})).collect();
+        let mut wf_names: Vec<String> = wfs.iter().map(|w| s(w, "name")).collect();
+        if rng.gen_bool(0.2) {
+            wf_names.push("w9".to_string()); // invoked but never defined
+        }
+        let exts: Vec<Value> = ["foo", "bar", "baz"].iter().filter(|_| rng.gen_bool(0.6)).map(|e| json!(e)).collect();
+        let call = |r: &mut rand_chacha::ChaCha8Rng| -> Option<String> {
+            exts.choose(r).map(|e| format!("CALL {} i[{}]", e.as_str().unwrap(), r.gen_range(0..2)))
+        };
+        // calibrations: bodies of timed instructions, calls and earlier calibrations
+        let ncals = rng.gen_range(0..=4);
+        let mut cals: Vec<Value> = vec![];
+        for k in 0..ncals {
+            let len = rng.gen_range(0..=3);
+            let mut body = vec![];
+            for _ in 0..len {
+                match rng.gen_range(0..10) {
+                    0 | 1 if k > 0 => body.push(s(&cals[rng.gen_range(0..k)], "head")),
+                    2 => body.push(call(&mut rng).unwrap_or_else(|| "FENCE".to_string())),
+                    _ => body.push(c25::random_timed(&mut rng, full, &wf_names)),
+                }
+            }
+            cals.push(json!({"head": format!("G{k} {}", k % 3), "body": body}));
+        }
+        let len = if h < 2 { h as usize } else { rng.gen_range(1..=max_len) };
+        let mut body = vec![];
+        for _ in 0..len {
+            match rng.gen_range(0..20) {
+                0..=5 if !cals.is_empty() => body.push(s(cals.choose(&mut rng).unwrap(), "head")),
+                6 => body.push(call(&mut rng).unwrap_or_else(|| "MOVE i[0] 1".to_string())),
+                7 | 8 => body.push(format!("LABEL @l{}", body.len())),
+                9 => body.push(["H 2", "MOVE i[1] 2", "NOP", "RESET 0"].choose(&mut rng).unwrap().to_string()),
+                _ => body.push(c25::random_timed(&mut rng, full, &wf_names)),
+            }
+        }
+        let program = build(&frames, &wfs, &exts, &cals, &body);
+        let case = json!({"frames": frames, "wfs": wfs, "exts": exts, "cals": cals, "body": body});
+        let o = judge(&program, None);
+        util::emit(&mut out, &json!({"ev": "reset", "prog": program_abs(&program)}));
+        let mut events = 1;
+        if let Ok(obs) = observe(&program) {
+            util::emit(&mut out, &json!({"ev": "out", "q": program_abs(&obs.simplified), "ncals": obs.simplified.calibrations.len()}));
+            for (k, (a, b)) in obs.blocks.iter().enumerate() {
+                let v = |x: &Option<BlockObs>| x.as_ref().map(|b| sched_value(&b.flat_sched)).unwrap_or(json!({"none": true}));
+                let w = |x: &Option<BlockObs>| x.as_ref().map(|b| sched_value(&b.src_sched)).unwrap_or(json!({"none": true}));
+                util::emit(&mut out, &json!({"ev": "sched", "block": k + 1, "a": v(a), "b": v(b), "a2": w(a), "b2": w(b)}));
+                events += 1;
+            }
+            util::emit(&mut out, &json!({"ev": "check"}));
+            events += 2;
+        }
+        let mut o = o;
+        o.count_n("events", events);
+        sum.absorb(&case, &o, true);
+    }
+    sum
 }
